@@ -112,6 +112,12 @@ Definition spec_event (t : tables) (ev : hop * hout) : bool :=
   | (HNs NFetch, HONs (OCtx m)) => forallb (fun pe => maps_to t (fst pe) (snd pe)) m
   | (HNs (NRead _), HONs _) => true
   | (HNs NRestart, HONs ONone) => true
+  | (HNs NCtxAll, HONs (OCtx m)) => forallb (fun pe => maps_to t (fst pe) (snd pe)) m
+  | (HNs (NDsCtx exps), HONs (OCtx m)) =>
+    (* only declared expansions, each under a prefix the manager (still) gives it, or under "" *)
+    forallb (fun pe => existsb (str_eqb (snd pe)) exps
+                       && (match fst pe with [] => true | _ => maps_to t (fst pe) (snd pe) end)) m
+  | (HNs NJsonLD, HONs ONone) => true
   | (HBatch _ _ ents, HOBatch oc ids) | (HCtxTxn _ _ ents, HOBatch oc ids) =>
     ok_outcome oc && Nat.eqb (length ids) (length ents) &&
     match oc with
@@ -169,6 +175,7 @@ Definition spec_ok (c : tcase) : bool :=
   && forallb dump_ok (o_outs c)
   && snapshot_ok [] (ns_events evs)
   && expand_known_ok [] evs
+  && dsctx_ok [] (ns_events evs)
   && match last_dump (o_outs c) None with
      | Some t => forallb (spec_event t) evs
      | None => true
@@ -243,3 +250,9 @@ Definition wit_crash (pt : nat) : list hop :=
 Definition stored_durable (w : world) : bool :=
   forallb (fun ui => on_eqb (slookup (fst ui) (disk (wid w))) (snd ui)) (wstored w).
 Definition wit_crash_min : list hop := [HCrashWrite true None (s2l "a") [ent0 "ns3:alice"] 1].
+
+(** a dataset declaring a namespace nobody has used yet: its page context before and after the first use,
+    with a JSON-LD page and a /namespaces read in between *)
+Definition x_pub : str := s2l "http://pub.example/later#".
+Definition wit_dsctx : list hop :=
+  [HNs (NDsCtx [x_pub]); HNs NJsonLD; HNs NCtxAll; HNs (NAssert x_pub); HNs (NDsCtx [x_pub]); HDump].
